@@ -86,6 +86,9 @@ def generate(rng, tier):
                   'gb.r 0 65281', 'gb.r 0 65282']
         cases.append(('gbser%d' % ngb, lines))
         ngb += 1
+    # the command line's debugging configuration: CPU trace on, standard output as the serial writer
+    for k in range(2 if tier == 'quick' else 8):
+        cases.append(('dbgser%d' % k, ['gb.dbgser %d' % rng.randrange(200, 3000)]))
     info = dict(input_distribution=dict(bus_histories=nb, programs=nb, roms=len(rl), machines_through_New=ngb),
                 samples=[dict(case=cases[nb][0], script=cases[nb][1][:30])])
     return cases, info
